@@ -50,11 +50,21 @@ func (x *fnCtx) loadH(h *Heap, a *Addr) *Val {
 		}
 	case AElem:
 		name := elemHeapName(t)
+		if a.ERoot != nil {
+			name = elemHeapName(a.ERoot)
+			start, n, _ := subLeaves(a.ERoot, a.Sub)
+			ls = layout(a.ERoot)[start : start+n]
+		}
 		for _, l := range ls {
 			v.L = append(v.L, Select(Select(hget(h, name+l.Suffix, ArrSort(SInt, ArrSort(SInt, l.Sort))), a.Base), a.Idx))
 		}
 	case ACell:
 		name := cellHeapName(t)
+		if a.ERoot != nil {
+			name = cellHeapName(a.ERoot)
+			start, n, _ := subLeaves(a.ERoot, a.Sub)
+			ls = layout(a.ERoot)[start : start+n]
+		}
 		for _, l := range ls {
 			v.L = append(v.L, Select(hget(h, name+l.Suffix, ArrSort(SInt, l.Sort)), a.Base))
 		}
@@ -466,6 +476,18 @@ func (x *fnCtx) evalSpecBin(env *specEnv, e *SExpr) *Val {
 	if isString(a.T) && e.Op == "+" {
 		return scalar(tString, SCat(a.L[0], b.L[0]))
 	}
+	if isString(a.T) && isString(b.T) {
+		switch e.Op {
+		case "<":
+			return scalar(tBool, App("strlt", SBool, a.L[0], b.L[0]))
+		case ">":
+			return scalar(tBool, App("strlt", SBool, b.L[0], a.L[0]))
+		case "<=":
+			return scalar(tBool, Not(App("strlt", SBool, b.L[0], a.L[0])))
+		case ">=":
+			return scalar(tBool, Not(App("strlt", SBool, a.L[0], b.L[0])))
+		}
+	}
 	at, bt := a.L[0], b.L[0]
 	switch e.Op {
 	case "<":
@@ -582,12 +604,19 @@ func (x *fnCtx) evalSpecCall(env *specEnv, e *SExpr) *Val {
 		body := x.evalSpecBool(&n, args[len(args)-1])
 		if strings.HasPrefix(name, "forall") {
 			pats := autoPatterns(bv, body)
+			if len(pats) == 0 && body.Kind == KQuant && body.Op == "forall" {
+				pats = autoPatterns(bv, body.Args[0])
+			}
 			if len(pats) == 0 && srt == SInt {
 				// indices of the form (T + k): re-index the quantifier over j = T + k
 				if off := findOffsetIndex(bv, body); off != nil {
 					j := BVar(args[0].Op+"j", SInt)
 					body2 := Subst(body, map[*Term]*Term{bv: Sub(j, off)})
-					if p2 := autoPatterns(j, body2); len(p2) > 0 {
+					p2 := autoPatterns(j, body2)
+					if len(p2) == 0 && body2.Kind == KQuant && body2.Op == "forall" {
+						p2 = autoPatterns(j, body2.Args[0])
+					}
+					if len(p2) > 0 {
 						return scalar(tBool, Forall([]*Term{j}, body2, p2...))
 					}
 				}
